@@ -748,6 +748,21 @@ struct Run {
     }
     if (useDb && !anyRan && buildNo > 1 && !failing) nullBuilds++;
     // ---- what the next invocation starts from
+    // in a failing invocation: statements whose task the engine certainly or possibly started (in dependency order - a task is
+    // started as soon as the stored result of one of its inputs changes, also to "failed" or "skipped")
+    std::set<std::string> touchedInFailing;
+    if (failing)
+      for (const Stmt* s : order) {
+        bool t = ran.count(s->name) || pOwn[s->name] != N || pRun[s->name] != N || pFail[s->name] != N;
+        if (!s->phony && recs.count(s->name) && recs[s->name].status != Rec::Ok) t = true;
+        std::vector<const Stmt*> al;
+        for (auto& i : effectiveInputs(*s, &al)) {
+          const Stmt* ip = man.producer(i);
+          if (ip && touchedInFailing.count(ip->name)) t = true;
+        }
+        if (!al.empty()) t = true;
+        if (t) touchedInFailing.insert(s->name);
+      }
     if (failing) {
       // an alias this invocation reached may have been recorded as skipped; statements *outside* the targets that depend on it
       // meet the change later
@@ -759,9 +774,18 @@ struct Run {
       for (auto& st : man.stmts) {
         if (st.phony || reached.count(st.name) || !recs.count(st.name)) continue;
         std::vector<const Stmt*> al;
-        effectiveInputs(st, &al);
+        std::vector<std::string> eff = effectiveInputs(st, &al);
         for (auto* a : al)
           if (reachedAliases.count(a->name) && recs[st.name].status == Rec::Ok) recs[st.name].status = Rec::Unknown;
+        // the same for an ordinary producer this invocation reached and did not leave as it was: its stored result went to
+        // "failed"/"skipped" and will come back; the engine compares epochs, so a consumer outside the targets re-runs
+        // (if it cannot be brought up to date by timestamps) although the files it reads are the same again
+        for (auto& i : eff) {
+          const Stmt* ip = man.producer(i);
+          if (!ip || !reached.count(ip->name)) continue;
+          bool producerTouched = touchedInFailing.count(ip->name) > 0;
+          if (producerTouched && recs[st.name].status == Rec::Ok) recs[st.name].status = Rec::Unknown;
+        }
       }
     }
     for (const Stmt* s : order) {
@@ -777,9 +801,7 @@ struct Run {
         bool untouched = r.status == Rec::Ok && pOwn[s->name] == N && pRun[s->name] == N && pFail[s->name] == N;
         // an alias is re-evaluated in every invocation; in one that a failure cancelled it may have been recorded as skipped,
         // and whoever depends on it then sees its result change back in the next invocation
-        std::vector<const Stmt*> al;
-        effectiveInputs(*s, &al);
-        if (!al.empty()) untouched = false;
+        if (touchedInFailing.count(s->name)) untouched = false;
         if (untouched) {
         } else if (!s->generator && pOwn[s->name] == Y) r.status = Rec::Invalid;
         else r.status = Rec::Unknown;
